@@ -63,28 +63,6 @@ theorem ScanPfx.group {body : Str} (ho : '[' ∉ body) (hc : ']' ∉ body) :
     Bool.or_true, ↓reduceIte]
   simp only [Int.zero_add, this]
 
-theorem joinComma_no_open : ∀ (items : List Str), (∀ it ∈ items, '[' ∉ it) → '[' ∉ Spec.joinComma items
-  | [], _ => by simp [Spec.joinComma]
-  | [x], h => by simpa [Spec.joinComma] using h x (by simp)
-  | x :: y :: rest, h => by
-    have := joinComma_no_open (y :: rest) (fun it hit => h it (by simp [hit]))
-    simp only [Spec.joinComma, List.mem_append, List.mem_cons, not_or]
-    exact ⟨h x (by simp), by decide, this⟩
-
-theorem renderRange_no_open {r : Spec.Range} (hw : r.WF = true) : '[' ∉ Spec.renderRange r := by
-  unfold Spec.Range.WF at hw
-  simp only [Bool.and_eq_true, decide_eq_true_eq] at hw
-  obtain ⟨⟨⟨⟨hlo, hhi⟩, _⟩, _⟩, _⟩ := hw
-  obtain ⟨dlo, _⟩ := spec_digits hlo
-  unfold Spec.renderRange
-  cases hh : r.hiS with
-  | none => simpa using allDigits_notin dlo (by decide)
-  | some hs =>
-    rw [hh] at hhi
-    obtain ⟨dhi, _⟩ := spec_digits hhi
-    simp only [List.mem_append, List.mem_cons, not_or]
-    exact ⟨allDigits_notin dlo (by decide), by decide, allDigits_notin dhi (by decide)⟩
-
 theorem ScanPfx.renderGroup {g : List Spec.Range} (hg : Spec.groupWF g = true) :
     ScanPfx (Spec.renderGroup g) := by
   unfold Spec.groupWF at hg
